@@ -79,6 +79,8 @@ package boltz
 //@   callpre[restrict-looks-for-referrers-in-the-referencing-store] IterateValidIds@1: ref(recv) == symStoreOf(index.symbol)
 //@   callpre[cascade-walks-the-referencing-store] IterateValidIds@2: ref(recv) == symStoreOf(index.symbol)
 //@   ensures[restrict-deletes-nothing] index.cascadeType == CascadeNone ==> dbSame()
+//@   ensures[restrict-always-looks-for-referrers] !holderFailed[ctx.ErrHolder] && index.cascadeType == CascadeNone ==> called(IterateValidIds, 1)
+//@   ensures[cascade-always-walks-the-referrers] !holderFailed[ctx.ErrHolder] && index.cascadeType == CascadeDelete ==> called(IterateValidIds, 2)
 //@   lensures[restrict-refuses-a-referenced-entity] !old(holderFailed[ctx.ErrHolder]) && index.cascadeType == CascadeNone && curPos[local(cursor, 1)] < curLen[local(cursor, 1)] ==> holderFailed[ctx.ErrHolder]
 //@   waive pre#Current the id cursor's position after a delete under it is bbolt's concern (the code re-seeks to the current key); not part of this claim
 //@   waive pre#Seek the id cursor's position after a delete under it is bbolt's concern; not part of this claim
@@ -97,6 +99,7 @@ package boltz
 //@   nosafety
 //@   modifies *
 //@   ensures[database-untouched] dbSame()
+//@   ensures[always-looks-at-the-referencing-set] !holderFailed[ctx.ErrHolder] ==> called(OpenCursor, 1)
 //@   lensures[a-referenced-entity-is-refused] !old(holderFailed[ctx.ErrHolder]) && rtHasElems(rtSymbol, str(ctx.RowId), bktHas, bktSub, bktVal) ==> holderFailed[ctx.ErrHolder]
 
 // ---- wiring: which constraints a store gets for a foreign key ----
